@@ -577,3 +577,143 @@ func c09ImmIndirect(c *Ctx, fn *ssa.Function, in ssa.Instruction, m ssa.Value, w
 		c.bad(construct, in.Pos(), "writes into a map that belongs to a type object (held at "+p.Pos(h.Pos())+") that may be shared: it can be "+shortList(bad, 3)+". Types handed out by the checker are shared between expressions, jobs and files")
 	}
 }
+
+// ---- C10.SIB: the files a per-repository cache reads lie under its own repository ----
+
+// variadicFirst: the first element of the slice built for a variadic call (`[]T{a, b, c}...` as SSA builds it).
+func variadicFirst(v ssa.Value) ssa.Value {
+	sl, ok := v.(*ssa.Slice)
+	if !ok {
+		return nil
+	}
+	al, ok := sl.X.(*ssa.Alloc)
+	if !ok {
+		return nil
+	}
+	for _, ref := range *al.Referrers() {
+		ia, ok := ref.(*ssa.IndexAddr)
+		if !ok {
+			continue
+		}
+		if k, ok := constInt(ia.Index); !ok || k != 0 {
+			continue
+		}
+		for _, r2 := range *ia.Referrers() {
+			if st, ok := r2.(*ssa.Store); ok && st.Addr == ssa.Value(ia) {
+				return st.Val
+			}
+		}
+	}
+	return nil
+}
+
+// rootedAtOwnProject: the path v starts with the root directory of the project the cache (receiver type recvT) was made
+// for: filepath.Join whose first element is again such a path, or RootDir() / .root of the receiver's *Project field.
+func rootedAtOwnProject(p *Prog, v ssa.Value, recvT string, depth int, seen map[ssa.Value]bool) bool {
+	if v == nil || depth > 6 {
+		return false
+	}
+	if seen[v] {
+		return true // a cycle through phis adds no other source
+	}
+	seen[v] = true
+	ownProject := func(x ssa.Value) bool {
+		ld, ok := x.(*ssa.UnOp)
+		if !ok || ld.Op != token.MUL {
+			return false
+		}
+		fa, ok := ld.X.(*ssa.FieldAddr)
+		if !ok || pointeeName(fa.X.Type()) != recvT {
+			return false
+		}
+		return pointeeName(ld.Type()) == "Project"
+	}
+	switch x := v.(type) {
+	case *ssa.Call:
+		switch calleeFullName(&x.Call) {
+		case "path/filepath.Join":
+			return rootedAtOwnProject(p, variadicFirst(x.Call.Args[0]), recvT, depth, seen)
+		case "path/filepath.Clean", "path/filepath.FromSlash":
+			return rootedAtOwnProject(p, x.Call.Args[0], recvT, depth, seen)
+		}
+		if f := staticCallee(&x.Call); f != nil && FuncName(f) == "(*Project).RootDir" && len(x.Call.Args) == 1 {
+			return ownProject(x.Call.Args[0])
+		}
+		return false
+	case *ssa.UnOp:
+		if x.Op == token.MUL {
+			if fa, ok := x.X.(*ssa.FieldAddr); ok && fieldAddrName(fa) == "Project.root" {
+				return ownProject(fa.X)
+			}
+		}
+		return false
+	case *ssa.Phi:
+		for _, e := range x.Edges {
+			if !rootedAtOwnProject(p, e, recvT, depth, seen) {
+				return false
+			}
+		}
+		return true
+	case *ssa.Parameter:
+		fn := x.Parent()
+		idx := -1
+		for i, q := range fn.Params {
+			if q == x {
+				idx = i
+			}
+		}
+		n := 0
+		for _, e := range p.callersOf(fn) {
+			if e.Site == nil || e.Site.Common().IsInvoke() || idx >= len(e.Site.Common().Args) {
+				return false
+			}
+			n++
+			if !rootedAtOwnProject(p, e.Site.Common().Args[idx], recvT, depth+1, seen) {
+				return false
+			}
+		}
+		return n > 0
+	}
+	return false
+}
+
+// c10CacheReadsOwnRepo: every file a per-repository cache opens is named by a path under the root of the project the cache
+// was created for - not relative to the working directory or to another project.
+func c10CacheReadsOwnRepo(c *Ctx) {
+	p := c.P
+	reads := map[string]bool{"os.ReadFile": true, "os.Stat": true, "os.Lstat": true, "os.Open": true, "os.OpenFile": true, "os.ReadDir": true, "io/ioutil.ReadFile": true}
+	for _, T := range []string{"LocalActionsCache", "LocalReusableWorkflowCache"} {
+		n, bad := 0, ""
+		for _, fn := range p.Funcs {
+			if !inModule(fn) || fn.Blocks == nil {
+				continue
+			}
+			root := fn
+			for root.Parent() != nil {
+				root = root.Parent()
+			}
+			if root.Signature.Recv() == nil || pointeeName(root.Signature.Recv().Type()) != T {
+				continue
+			}
+			eachInstr(fn, func(_ *ssa.BasicBlock, _ int, in ssa.Instruction) {
+				call, ok := in.(*ssa.Call)
+				if !ok || !reads[calleeFullName(&call.Call)] || len(call.Call.Args) == 0 {
+					return
+				}
+				n++
+				if !rootedAtOwnProject(p, call.Call.Args[0], T, 0, map[ssa.Value]bool{}) && bad == "" {
+					bad = calleeFullName(&call.Call) + " at " + p.Pos(call.Pos())
+				}
+			})
+		}
+		construct := T + "|files are read under the cache's own project root"
+		switch {
+		case n == 0:
+			c.undecided(construct, 0, "no file access found in the methods of "+T)
+		case bad != "":
+			c.bad(construct, 0, "the path given to "+bad+" does not start with the root directory of the project the cache was created for: a local action / reusable workflow is looked up relative to the working directory or another repository, so a file is checked against definitions that are not its own repository's")
+		default:
+			c.ok(construct, 0, fmt.Sprintf("%d file accesses, each on filepath.Join(<root of the cache's project>, ...)", n))
+		}
+	}
+}
